@@ -14,6 +14,7 @@ import (
 	"go/token"
 	"go/types"
 	"golang.org/x/tools/go/ssa/ssautil"
+	"sort"
 	"strconv"
 	"strings"
 
@@ -441,12 +442,25 @@ func (c *c13) fieldStores(fld *types.Var) (vals []ssa.Value, escapes string) {
 // both receive the same SSA value.
 func (c *c13) sameFile() {
 	n := 0
+	// closures belong to the function that declares them: os.ReadFile and the loader may sit in two
+	// step closures of one function and still name the same captured parameter
+	outer := func(fn *ssa.Function) *ssa.Function {
+		for fn.Parent() != nil {
+			fn = fn.Parent()
+		}
+		return fn
+	}
+	type site struct {
+		readArg, loadArg ssa.Value
+		readFn, loadFn   *ssa.Function
+		rpos             token.Pos
+	}
+	groups := map[*ssa.Function]*site{}
+	var order []*ssa.Function
 	for fn := range c.s.ReachGo {
 		if fn.Pkg == nil || fn.Pkg.Pkg.Path() != modPath {
 			continue
 		}
-		var readArg, loadArg ssa.Value
-		var rpos token.Pos
 		for _, b := range fn.Blocks {
 			for _, ins := range b.Instrs {
 				call, ok := ins.(*ssa.Call)
@@ -455,28 +469,114 @@ func (c *c13) sameFile() {
 				}
 				cc := call.Call
 				if sc := cc.StaticCallee(); sc != nil {
-					if sc.String() == "os.ReadFile" {
-						readArg = cc.Args[0]
-						rpos = call.Pos()
+					isRead := sc.String() == "os.ReadFile"
+					isLoad := strings.HasSuffix(sc.String(), ".LoadSwaggerFromFile")
+					if !isRead && !isLoad {
+						continue
 					}
-					if strings.HasSuffix(sc.String(), ".LoadSwaggerFromFile") {
-						loadArg = cc.Args[len(cc.Args)-1]
+					o := outer(fn)
+					g := groups[o]
+					if g == nil {
+						g = &site{}
+						groups[o] = g
+						order = append(order, o)
+					}
+					if isRead {
+						g.readArg, g.readFn, g.rpos = cc.Args[0], fn, call.Pos()
+					} else {
+						g.loadArg, g.loadFn = cc.Args[len(cc.Args)-1], fn
 					}
 				}
 			}
 		}
-		if readArg == nil {
+	}
+	sort.Slice(order, func(i, j int) bool { return order[i].String() < order[j].String() })
+	for _, o := range order {
+		g := groups[o]
+		if g.readArg == nil {
 			continue
 		}
 		n++
-		key := shortFn(fn) + ":os.ReadFile"
-		if loadArg == nil {
-			c.r.Undecided("C13/same-file", key, c.s.pos(rpos), "os.ReadFile without a loader call in the same function")
+		key := shortFn(o) + ":os.ReadFile"
+		if g.loadArg == nil {
+			c.r.Undecided("C13/same-file", key, c.s.pos(g.rpos), "os.ReadFile without a loader call in the same function")
 			continue
 		}
-		c.r.Check(readArg == loadArg, "C13/same-file", key, c.s.pos(rpos), "the file embedded ("+readArg.String()+") is not the file parsed ("+loadArg.String()+")")
+		ra, rok := canonCell(g.readFn, g.readArg)
+		la, lok := canonCell(g.loadFn, g.loadArg)
+		if !rok || !lok {
+			c.r.Undecided("C13/same-file", key, c.s.pos(g.rpos), "the path handed to os.ReadFile / the loader is a variable that is assigned more than once")
+			continue
+		}
+		c.r.Check(ra == la, "C13/same-file", key, c.s.pos(g.rpos), "the file embedded ("+g.readArg.String()+") is not the file parsed ("+g.loadArg.String()+")")
 	}
 	c.r.FloorMin("os.ReadFile sites in package goag", n, 1)
+}
+
+// canonCell: a value that is a load of a variable cell (a captured or address-taken parameter / local,
+// also through closure free variables) is identified by the cell — provided the cell is stored once.
+func canonCell(fn *ssa.Function, v ssa.Value) (ssa.Value, bool) {
+	ld, ok := v.(*ssa.UnOp)
+	if !ok || ld.Op != token.MUL {
+		return v, true
+	}
+	cell := ld.X
+	f := fn
+	for depth := 0; depth < 6; depth++ {
+		fv, isFree := cell.(*ssa.FreeVar)
+		if !isFree || f.Parent() == nil {
+			break
+		}
+		b := closureBinding(f, fv)
+		if b == nil {
+			return v, true
+		}
+		cell, f = b, f.Parent()
+	}
+	a, isAlloc := cell.(*ssa.Alloc)
+	if !isAlloc {
+		return cell, true
+	}
+	// count stores into the cell anywhere below its function (closures included)
+	stores := 0
+	var param ssa.Value
+	var visit func(g *ssa.Function)
+	visit = func(g *ssa.Function) {
+		for _, b := range g.Blocks {
+			for _, ins := range b.Instrs {
+				if st, ok := ins.(*ssa.Store); ok {
+					addr := st.Addr
+					gg := g
+					for {
+						fv, isFree := addr.(*ssa.FreeVar)
+						if !isFree || gg.Parent() == nil {
+							break
+						}
+						bnd := closureBinding(gg, fv)
+						if bnd == nil {
+							break
+						}
+						addr, gg = bnd, gg.Parent()
+					}
+					if addr == ssa.Value(a) {
+						stores++
+						param = st.Val
+					}
+				}
+			}
+		}
+		for _, an := range g.AnonFuncs {
+			visit(an)
+		}
+	}
+	visit(a.Parent())
+	if stores != 1 {
+		return cell, false
+	}
+	if p, ok := param.(*ssa.Parameter); ok {
+		return p, true
+	}
+	return cell, true
 }
 
 // variadicOperand: the i-th element boxed into the variadic slice argument `s` of a call
